@@ -47,6 +47,12 @@ func drawRunPath(t *rapid.T, lo, hi int, mag int) Path {
 		case k == 4 && len(p) > 0: // unit step
 			a := p[len(p)-1]
 			p = append(p, P{X: clampC(a.X + rapid.Int64Range(-1, 1).Draw(t, "ux")), Y: clampC(a.Y + rapid.Int64Range(-1, 1).Draw(t, "uy"))})
+		case k == 6 && len(p) > 2: // walk the last stretch back exactly (a zero-width, possibly bent whisker)
+			m := rapid.IntRange(2, min(5, len(p))).Draw(t, "retrace")
+			tail := append(Path{}, p[len(p)-m:]...)
+			for j := m - 2; j >= 0; j-- {
+				p = append(p, tail[j])
+			}
 		case k == 5 && len(p) > 1: // return to an earlier vertex
 			p = append(p, p[rapid.IntRange(0, len(p)-1).Draw(t, "back")])
 		default:
